@@ -50,6 +50,13 @@ def tramp(x, y, z, *, t):
     return np.stack([-s * y / 2, s * x / 2, np.zeros_like(x)], axis=1)
 
 
+def eps_t(r, *, t, vectorized=True):
+    import numpy as np
+
+    r = np.atleast_2d(r)
+    return 1.0 - (0.25 + 0.1 * np.sin(0.9 * t + 0.3)) * np.exp(-((r[:, 0] - 0.8) ** 2 + (r[:, 1] + 0.4) ** 2))
+
+
 def cur(t):
     return {"source": 1.0 + 0.5 * t, "drain": -1.0 - 0.5 * t}
 
@@ -69,6 +76,9 @@ def run_config(tdgl, zoo, config, outmode, k):
         kw = dict(applied_vector_potential=tdgl.Parameter(tramp, time_dependent=True))
     elif config == "callable_currents":
         kw["terminal_currents"] = cur
+    elif config == "eps_tdep":
+        # a disorder parameter that depends on time (recorded with every frame, the initial one included)
+        kw["disorder_epsilon"] = eps_t
     elif config == "four_terminals":
         # non-representable decimals on four terminals: any order dependence of a sum shows in the last bit
         dt = 2.0**-7
@@ -99,7 +109,7 @@ def run_config(tdgl, zoo, config, outmode, k):
         import numpy as np
 
         h = hl.sha256()
-        for nm in ("psi", "mu", "supercurrent", "normal_current", "induced_vector_potential"):
+        for nm in ("psi", "mu", "supercurrent", "normal_current", "induced_vector_potential", "epsilon", "applied_vector_potential"):
             h.update(np.ascontiguousarray(getattr(sol.tdgl_data, nm)).tobytes())
         h.update(np.ascontiguousarray(sol.dynamics.dt).tobytes())
         h.update(np.ascontiguousarray(dev.mesh.sites).tobytes())
